@@ -1,5 +1,6 @@
 import BufProofs.Lemmas.PathLemmas
 import BufProofs.Lemmas.BucketLemmas
+import BufProofs.Lemmas.DiskRootLemmas
 /-
   C13 — No path can escape a bucket's root.  Property theorems only; helper lemmas live in
   BufProofs/Lemmas.
@@ -10,7 +11,7 @@ import BufProofs.Lemmas.BucketLemmas
   the root" = a key that does not have `fullKey ls` as a component-wise prefix.
 -/
 namespace BufProofs.C13
-open BufModel.Path BufModel.Bucket
+open BufModel.Path BufModel.Bucket BufModel.Disk
 
 /-- After lexical reduction a relative path is k copies of ".." followed by proper names, and a
     rooted path has no ".." at all. -/
@@ -33,6 +34,40 @@ theorem join_under_root (root : Key) (hroot : AllProper root) (s p : Str)
     ∃ k : Key, AllProper k ∧ join [renderKey root, p] = renderKey (root ++ k) := by
   obtain ⟨k, hk, hp⟩ := BufModel.Path.validate_sound s p h
   exact ⟨k, hk, by rw [hp, join_keys hroot hk]⟩
+
+/-- an absolute root: "/" followed by a rendered non-empty key -/
+def absRoot (rk : Key) : Str := '/' :: renderKey rk
+
+/-- The disk bucket's `getExternalPath` with a real (absolute) root: a validated path joined
+    onto the root directory is the root followed by the path's components — a path below the
+    root directory, component-wise. -/
+theorem join_under_abs_root {rk k : Key} (hr : AllProper rk) (hrne : rk ≠ []) (hk : AllProper k) :
+    join [absRoot rk, renderKey k] = absRoot (rk ++ k) := by
+  unfold join absRoot
+  have hnb := renderKey_ne_nil hk
+  have hna : ('/' :: renderKey rk) ≠ [] := by simp
+  simp only [List.filter, hna, hnb, ne_eq, not_false_eq_true, decide_true]
+  show clean (('/' :: renderKey rk) ++ '/' :: renderKey k) = _
+  unfold clean
+  have habs : isAbs (('/' :: renderKey rk) ++ '/' :: renderKey k) = true := by simp [isAbs]
+  rw [habs]
+  have hsplit : splitSlash (('/' :: renderKey rk) ++ '/' :: renderKey k) =
+      [] :: (splitSlash (renderKey rk) ++ splitSlash (renderKey k)) := by
+    rw [List.cons_append, splitSlash_cons_slash, splitSlash_append]
+  rw [hsplit]
+  rw [reduce_plain true _ (by
+    intro c hc
+    rcases List.mem_cons.mp hc with e | hc
+    · exact Or.inr (Or.inr e)
+    · rcases List.mem_append.mp hc with hc | hc
+      · exact splitSlash_renderKey_plain hr c hc
+      · exact splitSlash_renderKey_plain hk c hc)]
+  have hnp : ¬ Proper ([] : Comp) := fun h => h.1 rfl
+  rw [List.filter_cons_of_neg (by simpa using hnp), List.filter_append,
+    filter_splitSlash_renderKey hr, filter_splitSlash_renderKey hk]
+  have hne : rk ++ k ≠ [] := by simp [hrne]
+  unfold render renderKey render
+  simp [hne]
 
 /-- The path-wise containment test coincides with the component-prefix relation on keys: "ab"
     is not under "a". -/
@@ -124,8 +159,10 @@ theorem view_frame_walk (ls : List KLayer) (hls : KLayersOK ls) (m : Mem) (hm : 
         (renderKey (fullKey ls ++ kk), qc.2) ∈ m :=
   vWalk_sound ls hls m hm pfx objs h
 
-/-- Escaping names are rejected: no operation through any view succeeds on a path that
-    validation refuses (paths cleaning to "..", "../…" or "/…"). -/
+/-- Escaping names are rejected by EVERY operation: validation is not bypassed by any layer —
+    no Put/Delete/DeleteAll/Get through any nesting of views succeeds on a path that validation
+    refuses (which paths those are: `accepted_iff_shape`).  (This is a statement about the
+    plumbing of the views — each operation validates before mapping — not about validation.) -/
 theorem escape_rejected (ls : List KLayer) (hls : KLayersOK ls) (m : Mem) (path : Str) (e : PErr)
     (hrej : normalizeAndValidate path = .error e) (c : Content) :
     (∀ m', vPut (ls.map KLayer.toLayer) m path c ≠ .ok m') ∧
@@ -151,6 +188,162 @@ theorem rejected_iff (s : Str) :
       simp at h2; simp [h2]
     · simp only [h1, h2, Bool.false_eq_true, if_false]
       simp at h2; simp [h2]
+
+/-! ### Hostile view prefixes
+
+`storage.MapOnPrefix` documents that its prefix is "expected to be normalized and validated" but
+does not check it.  The `view_frame_*` theorems above assume well-formed prefixes (`KLayersOK`):
+they speak about the VIEW's root.  The three theorems below make NO assumption on the layers —
+any prefix string, any nesting — and speak about the PARENT bucket's root: whatever the
+prefixes and the path are, a write that succeeds touches exactly one non-empty key of proper
+names of the parent (never "..", never absolute), a delete removes exactly such a key, and a
+DeleteAll removes exactly the keys under such a key.  (Reads never change the parent.) -/
+
+/-- hostile prefixes, Put -/
+theorem hostile_view_put_stays_in_base (ls : List Layer) (m m' : Mem) (path : Str) (c : Content)
+    (h : vPut ls m path c = .ok m') :
+    ∃ k : Key, AllProper k ∧ k ≠ [] ∧ m' = (renderKey k, c) :: m.erase (renderKey k) := by
+  induction ls generalizing path with
+  | nil =>
+    simp only [vPut, memPut] at h
+    cases hv : validatePath path with
+    | error e => rw [hv] at h; cases h
+    | ok p =>
+      rw [hv] at h
+      obtain ⟨k, hk, hne, hp, _⟩ := validatePath_sound path p hv
+      injection h with h
+      exact ⟨k, hk, hne, by rw [← h, hp]⟩
+  | cons l ls ih =>
+    cases l with
+    | pre p =>
+      simp only [vPut] at h
+      cases hf : mapFullPath p path with
+      | error e => rw [hf] at h; cases h
+      | ok full => rw [hf] at h; exact ih full h
+    | filt f => simp [vPut] at h
+
+theorem hostile_view_delete_stays_in_base (ls : List Layer) (m m' : Mem) (path : Str)
+    (h : vDelete ls m path = .ok m') :
+    ∃ k : Key, AllProper k ∧ k ≠ [] ∧ m' = m.erase (renderKey k) := by
+  induction ls generalizing path with
+  | nil =>
+    simp only [vDelete, memDelete] at h
+    cases hv : validatePath path with
+    | error e => rw [hv] at h; cases h
+    | ok p =>
+      rw [hv] at h
+      obtain ⟨k, hk, hne, hp, _⟩ := validatePath_sound path p hv
+      simp only at h
+      cases hfind : m.find p with
+      | none => rw [hfind] at h; cases h
+      | some _ =>
+        rw [hfind] at h
+        injection h with h
+        exact ⟨k, hk, hne, by rw [← h, hp]⟩
+  | cons l ls ih =>
+    cases l with
+    | pre p =>
+      simp only [vDelete] at h
+      cases hf : mapFullPath p path with
+      | error e => rw [hf] at h; cases h
+      | ok full => rw [hf] at h; exact ih full h
+    | filt f => simp [vDelete] at h
+
+theorem hostile_view_deleteAll_stays_in_base (ls : List Layer) (m m' : Mem) (pfx : Str)
+    (h : vDeleteAll ls m pfx = .ok m') :
+    ∃ k : Key, AllProper k ∧ m' = m.filter (fun kv => !equalsOrContainsPath (renderKey k) kv.1) := by
+  induction ls generalizing pfx with
+  | nil =>
+    simp only [vDeleteAll, memDeleteAll, validatePrefix] at h
+    cases hv : normalizeAndValidate pfx with
+    | error e => rw [hv] at h; cases h
+    | ok p =>
+      rw [hv] at h
+      obtain ⟨k, hk, hp⟩ := validate_sound pfx p hv
+      injection h with h
+      exact ⟨k, hk, by rw [← h, hp]⟩
+  | cons l ls ih =>
+    cases l with
+    | pre p =>
+      simp only [vDeleteAll] at h
+      cases hf : normalizeAndValidate pfx with
+      | error e => rw [hf] at h; cases h
+      | ok q => rw [hf] at h; exact ih _ h
+    | filt f => simp [vDeleteAll] at h
+
+/-- The exact shape of what validation accepts, in terms of the lexical reduction of
+    `reduce_shape`: a path is accepted iff it is relative and no ".." survives the reduction
+    (k = 0); everything else — absolute, or k > 0 leading ".." — is rejected. -/
+theorem accepted_iff_shape (s : Str) :
+    (∃ p, normalizeAndValidate s = .ok p) ↔
+      (isAbs s = false ∧ AllProper (reduce false (splitSlash s))) := by
+  constructor
+  · rintro ⟨p, h⟩
+    unfold normalizeAndValidate at h
+    simp only at h
+    split at h
+    · cases h
+    · rename_i hab
+      split at h
+      · cases h
+      · rename_i hjump
+        obtain ⟨k, names, heq, hp, hr⟩ := BufModel.Path.reduce_shape (isAbs s) (splitSlash s) (splitSlash_no_slash s)
+        cases hs : isAbs s with
+        | true =>
+          exfalso; apply hab
+          unfold clean render; rw [hs]; simp [isAbs]
+        | false =>
+          rw [hs] at heq
+          refine ⟨rfl, ?_⟩
+          have hc : clean s = render false (List.replicate k dotdot ++ names) := by
+            unfold clean; rw [hs, heq]
+          cases k with
+          | zero => rw [heq]; simpa using hp
+          | succ k =>
+            exfalso; apply hjump
+            rw [hc]
+            simp only [List.replicate_succ, List.cons_append, render]
+            cases hrest : List.replicate k dotdot ++ names with
+            | nil => simp [joinSlash, dotdot]
+            | cons r rs =>
+              simp [joinSlash_cons_cons, dotdot, jumpPrefix, List.isPrefixOf]
+  · rintro ⟨hs, hp⟩
+    have hc : clean s = renderKey (reduce false (splitSlash s)) := by
+      unfold clean renderKey; rw [hs]
+    refine ⟨renderKey (reduce false (splitSlash s)), ?_⟩
+    unfold normalizeAndValidate
+    simp only [hc, isAbs_renderKey hp]
+    obtain ⟨h1, h2⟩ := renderKey_not_jump hp
+    simp [h1, h2]
+
+/-- Disk bucket, operation level: a successful Put (atomic or not) — for ANY path string —
+    creates or replaces exactly one regular file, at a non-empty key of proper names below the
+    bucket root, and the only directories it creates are the proper ancestors of that key. -/
+theorem disk_put_stays_in_root (d d' : Disk) (path : Str) (c : Content)
+    (h : diskPut d path c = .ok d') :
+    ∃ k : Key, AllProper k ∧ k ≠ [] ∧
+      d'.files = (renderKey k, c) :: d.files.erase (renderKey k) ∧
+      ∀ x ∈ d'.dirs, x ∈ d.dirs ∨ (∃ n, 0 < n ∧ n < k.length ∧ x = k.take n) := by
+  unfold diskPut at h
+  cases hv : validatePath path with
+  | error e => rw [hv] at h; cases h
+  | ok p =>
+    rw [hv] at h
+    obtain ⟨k, hk, hne, hp, _⟩ := validatePath_sound path p hv
+    simp only at h
+    split at h
+    · cases h
+    · split at h
+      · cases h
+      · injection h with h
+        subst h
+        have hkey : keyOfPath p = k := by unfold keyOfPath; rw [hp, cleanComps_renderKey hk]
+        refine ⟨k, hk, hne, by simp [hp], ?_⟩
+        intro x hx
+        simp only at hx
+        rcases (mem_addDirs _ _ _).mp hx with h1 | h2
+        · exact Or.inl h1
+        · rw [hkey] at h2; exact Or.inr (mem_ancestors k x h2)
 
 /-- Archive entries (tar / zip): an entry is written only to a non-empty key of proper names,
     a suffix of its validated name. -/
@@ -182,5 +375,22 @@ example : vPut ([KLayer.pre ["a".toList]].map KLayer.toLayer) [] "q/../f".toList
 example : unmapArchivePath "top/../../evil".toList 0 (fun _ => true) = .error .outsideContext := by decide
 /-- The pre-fix validator accepted "..": the recorded finding (fixed in /repo 8b9cf6b). -/
 theorem validate_old_counterexample : normalizeAndValidateOld "a/../..".toList = .ok "..".toList := by decide
+
+-- non-vacuity: histories through views over a parent holding sentinels outside the root
+/-- example exParent bucket: "ab" is a string-wise but not a path-wise neighbour of the view root "a" -/
+def exParent : Mem := [("a/x".toList, "1"), ("ab".toList, "2"), ("b".toList, "3"), ("a/sub/y".toList, "4")]
+-- a sentinel outside the view root survives every write through the view; string-wise neighbours ("ab") too
+example : vDeleteAll [.pre "a".toList] exParent ".".toList = .ok [("ab".toList, "2"), ("b".toList, "3")] := by decide
+example : vDelete [.pre "a".toList] exParent "../b".toList = .error .outsideContext := by decide
+example : vPut [.pre "sub".toList, .pre "a".toList] exParent "z/../y".toList "N" =
+    .ok [("a/sub/y".toList, "N"), ("a/x".toList, "1"), ("ab".toList, "2"), ("b".toList, "3")] := by decide
+example : vGet [.pre "a".toList] exParent "/x".toList = .error .notRelative := by decide
+example : vWalk [.filt (.ext ".proto".toList), .pre "a".toList] exParent "".toList = .ok [] := by decide
+example : vWalk [.pre "a".toList] exParent "sub/..".toList = .ok [("x".toList, "1"), ("sub/y".toList, "4")] := by decide
+-- hostile prefixes: nothing succeeds outside the parent's root
+example : vPut [.pre "../x".toList] exParent "a".toList "C" = .error .outsideContext := by decide
+example : vPut [.pre "/abs".toList] exParent "a".toList "C" = .error .notRelative := by decide
+example : vDeleteAll [.pre "a/../..".toList] exParent ".".toList = .error .outsideContext := by decide
+example : vPut [.pre "a//b/".toList] [] "c".toList "C" = .ok [("a/b/c".toList, "C")] := by decide
 
 end BufProofs.C13
